@@ -5,7 +5,7 @@ What runs: the real `Entity.__init__`, `Entity._get_from_identity_map_`, `Attrib
 `Set.reverse_add/reverse_remove`, `SessionCache.update_simple_index/update_composite_index`, `Attribute.validate`,
 `Set.validate`, followed by the real `flush()/commit()` on a real in-memory SQLite database (sqlite3 engine, foreign keys on).
 
-Scenario list (NOT solver-quantified as programs; SCENARIOS below: 96 calls in 9 families - create, assign, set(), one-to-one
+Scenario list (NOT solver-quantified as programs; SCENARIOS below: ~100 calls in 9 families - create, assign, set(), one-to-one
 reassignment, collection add / remove / assignment, delete with cascades of depth 2, mixed-session objects and validation
 errors).  Every scenario is one modification call on a fixed object graph (function `populate`: 10 entity types with simple,
 composite and relation-composite keys, one-to-one required / optional / cascade, one-to-many optional / required without
@@ -425,6 +425,15 @@ def _scenarios():
         t3, p1 = c.Task(3), c.Person(1)
         return lambda: t3.set(slot=5, owner=p1)
 
+    @sc('set', 'collection with a pending addition extended, then a conflicting second collection')
+    def _(c):
+        p2, g1, g2, g3, t1, t3 = c.Person(2), c.Group(1), c.Group(2), c.Group(3), c.Task(1), c.Task(3); p2.groups.add(g3)
+        return lambda: p2.set(groups=[g1, g2, g3], tasks=[t1, t3])
+    @sc('set', 'collection with a pending removal emptied, then a second collection that cannot be unlinked')
+    def _(c):
+        p1, g1 = c.Person(1), c.Group(1); p1.groups.remove(g1)
+        return lambda: p1.set(groups=[], notes=[])
+
     # ---- one-to-one -----------------------------------------------------------------------------
     @sc('o2o', 'take a passport whose holder may lose it (succeeds unless faulted)')
     def _(c):
@@ -626,6 +635,20 @@ def _scenarios():
     def _(c):
         p1, p3 = c.Person(1), c.Person(3); c.Note(1).author = p3; c.Note(2).author = p3
         return lambda: p1.delete()
+
+    # pending (unflushed) link changes on the collection that a nested Set.__set__ then rewrites, and a later step that raises
+    @sc('delete', 'refused by notes after a many-to-many link was removed in this session')
+    def _(c):
+        p, g1 = c.Person(1), c.Group(1); p.groups.remove(g1)
+        return lambda: p.delete()
+    @sc('delete', 'refused at depth 2 after a many-to-many link was removed in this session')
+    def _(c):
+        p, g1 = c.Person(4), c.Group(1); p.groups.remove(g1)
+        return lambda: p.delete()
+    @sc('delete', 'refused by notes after a task was unlinked in this session')
+    def _(c):
+        p, t1 = c.Person(1), c.Task(1); p.tasks.remove(t1)
+        return lambda: p.delete()
 
     # ---- mixed sessions and validation ----------------------------------------------------------
     @sc('mixed', 'assign an object of an earlier session')
@@ -1079,10 +1102,10 @@ def judge(si, k, origin, hist, preload, follow, order=0):
 
 def explain(fn, s, k, mode, order=0, follow=0):
     """untraced, in-process re-run of one path of harness `fn` -> [holds, key, reasons, info]"""
-    fam, only_flag = HARNESSES[fn]
-    lst = family(fam)
+    only_flag = HARNESSES[fn][1]
+    lst, modes = scenarios_of(fn), modes_of(fn)
     si = lst[min(max(s, 0), len(lst) - 1)][0]
-    o, h, p = MODES[min(max(mode, 0), N_MODES - 1)]
+    o, h, p = modes[min(max(mode, 0), len(modes) - 1)]
     ONLY_FLAG[0] = only_flag
     return judge(si, min(max(k, 0), kmax(si)), o, h, p, min(max(follow, 0), N_FOLLOW - 1) if FOLLOW else 0, 1 if order else 0)
 
@@ -1154,13 +1177,13 @@ def _harness(fn, s, k, mode, order, follow):
     from crosshair import NoTracing
     from crosshair.tracers import is_tracing
     traced = is_tracing()
-    fam, only_flag = HARNESSES[fn]
-    lst = family(fam)
+    only_flag = HARNESSES[fn][1]
+    lst, modes = scenarios_of(fn), modes_of(fn)
     si = lst[_pick(s, len(lst))][0]
     with NoTracing():
         bound = Helper.call('kmax', si) if traced else kmax(si)
     kk = _pick(k, bound + 1)
-    o, h, p = MODES[_pick(mode, N_MODES)]
+    o, h, p = modes[_pick(mode, len(modes))]
     f = _pick(follow, N_FOLLOW) if FOLLOW and not only_flag else 0       # the flag harnesses need no follow-up
     od = 1 if order else 0
     with NoTracing():
@@ -1171,27 +1194,55 @@ def _harness(fn, s, k, mode, order, follow):
     return holds
 
 
+def scenarios_of(fn):
+    """the scenarios of harness fn: a family, or every n-th scenario of it (the big families are split to run in parallel)"""
+    fam, only_flag, part = HARNESSES[fn]
+    lst = family(fam)
+    return lst if part is None else lst[part[0]::part[1]]
+
+
+def modes_of(fn):
+    """session histories of harness fn.  The modified_flag harnesses only use histories that leave cache.modified False before
+    the call (no pending unrelated changes, nothing created and unflushed): otherwise the flag is set anyway."""
+    lst = MODES[:N_MODES]
+    if HARNESSES[fn][1]: lst = [m for m in lst if m[0] != 1 and m[1] != 1]
+    return lst
+
+
 def _n(fn):
-    return len(family(HARNESSES[fn][0]))
+    return len(scenarios_of(fn))
 
 
-HARNESSES = {'create': ('create', False), 'assign': ('assign', False), 'set_call': ('set', False), 'one_to_one': ('o2o', False),
-             'coll_add': ('add', False), 'coll_remove': ('remove', False), 'coll_set': ('collset', False),
-             'delete': ('delete', False), 'mixed': ('mixed', False),
-             'modified_flag_assign': ('assign', True), 'modified_flag_delete': ('delete', True)}
+def _m(fn):
+    return len(modes_of(fn))
 
 
-def create(s: int, k: int, mode: int, order: bool, follow: int) -> bool:
+HARNESSES = {'create_a': ('create', False, (0, 2)), 'create_b': ('create', False, (1, 2)), 'assign': ('assign', False, None),
+             'set_call': ('set', False, None), 'one_to_one': ('o2o', False, None), 'coll_add': ('add', False, None),
+             'coll_remove': ('remove', False, None), 'coll_set': ('collset', False, None),
+             'delete_a': ('delete', False, (0, 2)), 'delete_b': ('delete', False, (1, 2)), 'mixed': ('mixed', False, None),
+             'modified_flag_assign': ('assign', True, None), 'modified_flag_delete': ('delete', True, None)}
+
+
+def create_a(s: int, k: int, mode: int, order: bool, follow: int) -> bool:
     """
-    pre: 0 <= s < _n('create') and 0 <= k <= KCAP and 0 <= mode < N_MODES and 0 <= follow < N_FOLLOW
+    pre: 0 <= s < _n('create_a') and 0 <= k <= KCAP and 0 <= mode < _m('create_a') and 0 <= follow < N_FOLLOW
     post: _
     """
-    return ok(_harness('create', s, k, mode, order, follow))
+    return ok(_harness('create_a', s, k, mode, order, follow))
+
+
+def create_b(s: int, k: int, mode: int, order: bool, follow: int) -> bool:
+    """
+    pre: 0 <= s < _n('create_b') and 0 <= k <= KCAP and 0 <= mode < _m('create_b') and 0 <= follow < N_FOLLOW
+    post: _
+    """
+    return ok(_harness('create_b', s, k, mode, order, follow))
 
 
 def assign(s: int, k: int, mode: int, order: bool, follow: int) -> bool:
     """
-    pre: 0 <= s < _n('assign') and 0 <= k <= KCAP and 0 <= mode < N_MODES and 0 <= follow < N_FOLLOW
+    pre: 0 <= s < _n('assign') and 0 <= k <= KCAP and 0 <= mode < _m('assign') and 0 <= follow < N_FOLLOW
     post: _
     """
     return ok(_harness('assign', s, k, mode, order, follow))
@@ -1199,7 +1250,7 @@ def assign(s: int, k: int, mode: int, order: bool, follow: int) -> bool:
 
 def set_call(s: int, k: int, mode: int, order: bool, follow: int) -> bool:
     """
-    pre: 0 <= s < _n('set_call') and 0 <= k <= KCAP and 0 <= mode < N_MODES and 0 <= follow < N_FOLLOW
+    pre: 0 <= s < _n('set_call') and 0 <= k <= KCAP and 0 <= mode < _m('set_call') and 0 <= follow < N_FOLLOW
     post: _
     """
     return ok(_harness('set_call', s, k, mode, order, follow))
@@ -1207,7 +1258,7 @@ def set_call(s: int, k: int, mode: int, order: bool, follow: int) -> bool:
 
 def one_to_one(s: int, k: int, mode: int, order: bool, follow: int) -> bool:
     """
-    pre: 0 <= s < _n('one_to_one') and 0 <= k <= KCAP and 0 <= mode < N_MODES and 0 <= follow < N_FOLLOW
+    pre: 0 <= s < _n('one_to_one') and 0 <= k <= KCAP and 0 <= mode < _m('one_to_one') and 0 <= follow < N_FOLLOW
     post: _
     """
     return ok(_harness('one_to_one', s, k, mode, order, follow))
@@ -1215,7 +1266,7 @@ def one_to_one(s: int, k: int, mode: int, order: bool, follow: int) -> bool:
 
 def coll_add(s: int, k: int, mode: int, order: bool, follow: int) -> bool:
     """
-    pre: 0 <= s < _n('coll_add') and 0 <= k <= KCAP and 0 <= mode < N_MODES and 0 <= follow < N_FOLLOW
+    pre: 0 <= s < _n('coll_add') and 0 <= k <= KCAP and 0 <= mode < _m('coll_add') and 0 <= follow < N_FOLLOW
     post: _
     """
     return ok(_harness('coll_add', s, k, mode, order, follow))
@@ -1223,7 +1274,7 @@ def coll_add(s: int, k: int, mode: int, order: bool, follow: int) -> bool:
 
 def coll_remove(s: int, k: int, mode: int, order: bool, follow: int) -> bool:
     """
-    pre: 0 <= s < _n('coll_remove') and 0 <= k <= KCAP and 0 <= mode < N_MODES and 0 <= follow < N_FOLLOW
+    pre: 0 <= s < _n('coll_remove') and 0 <= k <= KCAP and 0 <= mode < _m('coll_remove') and 0 <= follow < N_FOLLOW
     post: _
     """
     return ok(_harness('coll_remove', s, k, mode, order, follow))
@@ -1231,23 +1282,31 @@ def coll_remove(s: int, k: int, mode: int, order: bool, follow: int) -> bool:
 
 def coll_set(s: int, k: int, mode: int, order: bool, follow: int) -> bool:
     """
-    pre: 0 <= s < _n('coll_set') and 0 <= k <= KCAP and 0 <= mode < N_MODES and 0 <= follow < N_FOLLOW
+    pre: 0 <= s < _n('coll_set') and 0 <= k <= KCAP and 0 <= mode < _m('coll_set') and 0 <= follow < N_FOLLOW
     post: _
     """
     return ok(_harness('coll_set', s, k, mode, order, follow))
 
 
-def delete(s: int, k: int, mode: int, order: bool, follow: int) -> bool:
+def delete_a(s: int, k: int, mode: int, order: bool, follow: int) -> bool:
     """
-    pre: 0 <= s < _n('delete') and 0 <= k <= KCAP and 0 <= mode < N_MODES and 0 <= follow < N_FOLLOW
+    pre: 0 <= s < _n('delete_a') and 0 <= k <= KCAP and 0 <= mode < _m('delete_a') and 0 <= follow < N_FOLLOW
     post: _
     """
-    return ok(_harness('delete', s, k, mode, order, follow))
+    return ok(_harness('delete_a', s, k, mode, order, follow))
+
+
+def delete_b(s: int, k: int, mode: int, order: bool, follow: int) -> bool:
+    """
+    pre: 0 <= s < _n('delete_b') and 0 <= k <= KCAP and 0 <= mode < _m('delete_b') and 0 <= follow < N_FOLLOW
+    post: _
+    """
+    return ok(_harness('delete_b', s, k, mode, order, follow))
 
 
 def mixed(s: int, k: int, mode: int, order: bool, follow: int) -> bool:
     """
-    pre: 0 <= s < _n('mixed') and 0 <= k <= KCAP and 0 <= mode < N_MODES and 0 <= follow < N_FOLLOW
+    pre: 0 <= s < _n('mixed') and 0 <= k <= KCAP and 0 <= mode < _m('mixed') and 0 <= follow < N_FOLLOW
     post: _
     """
     return ok(_harness('mixed', s, k, mode, order, follow))
@@ -1255,7 +1314,7 @@ def mixed(s: int, k: int, mode: int, order: bool, follow: int) -> bool:
 
 def modified_flag_assign(s: int, k: int, mode: int, order: bool, follow: int) -> bool:
     """
-    pre: 0 <= s < _n('modified_flag_assign') and 0 <= k <= KCAP and 0 <= mode < N_MODES and 0 <= follow < N_FOLLOW
+    pre: 0 <= s < _n('modified_flag_assign') and 0 <= k <= KCAP and 0 <= mode < _m('modified_flag_assign') and 0 <= follow < N_FOLLOW
     post: _
     """
     return ok(_harness('modified_flag_assign', s, k, mode, order, follow))
@@ -1263,7 +1322,7 @@ def modified_flag_assign(s: int, k: int, mode: int, order: bool, follow: int) ->
 
 def modified_flag_delete(s: int, k: int, mode: int, order: bool, follow: int) -> bool:
     """
-    pre: 0 <= s < _n('modified_flag_delete') and 0 <= k <= KCAP and 0 <= mode < N_MODES and 0 <= follow < N_FOLLOW
+    pre: 0 <= s < _n('modified_flag_delete') and 0 <= k <= KCAP and 0 <= mode < _m('modified_flag_delete') and 0 <= follow < N_FOLLOW
     post: _
     """
     return ok(_harness('modified_flag_delete', s, k, mode, order, follow))
